@@ -460,18 +460,26 @@ fn derive_func_op_shape(def: &FuncOpDef, symbol_table: &mut BTreeMap<Rc<str>, Sh
         FuncOpDef::Map(MapFilterOpDef { func, target, pos }) => {
             let target_shape = target.derive_shape(symbol_table);
             let func_shape = func.derive_shape(symbol_table);
-            // target must be a list
+            // target must be a list, tuple or string
             match &target_shape {
                 Shape::List(_) | Shape::Hole(_) => {}
                 Shape::Narrowed(NarrowedShape {
                     types: NarrowingShape::Any,
                     ..
                 }) => {}
+                // Mapping over a tuple or a string produces a tuple or a
+                // string whose contents we don't track.
+                Shape::Tuple(_) | Shape::Str(_) => {
+                    return Shape::Narrowed(NarrowedShape {
+                        pos: pos.clone(),
+                        types: NarrowingShape::Any,
+                    });
+                }
                 _ => {
                     return Shape::TypeErr(
                         pos.clone(),
                         format!(
-                            "map target must be a list, got {}",
+                            "map target must be a list, tuple or string, got {}",
                             target_shape.type_name()
                         ),
                     );
@@ -492,9 +500,16 @@ fn derive_func_op_shape(def: &FuncOpDef, symbol_table: &mut BTreeMap<Rc<str>, Sh
         FuncOpDef::Filter(MapFilterOpDef { func, target, pos }) => {
             let target_shape = target.derive_shape(symbol_table);
             let _func_shape = func.derive_shape(symbol_table);
-            // target must be a list, return type is same list type
+            // target must be a list, tuple or string, return type is same list type
             match &target_shape {
                 Shape::List(_) => target_shape,
+                // Filtering a string gives a string.
+                Shape::Str(_) => target_shape,
+                // Filtering a tuple gives a tuple with a subset of the fields.
+                Shape::Tuple(_) => Shape::Narrowed(NarrowedShape {
+                    pos: pos.clone(),
+                    types: NarrowingShape::Any,
+                }),
                 Shape::Hole(_) => Shape::List(NarrowedShape {
                     pos: pos.clone(),
                     types: NarrowingShape::Any,
@@ -524,9 +539,9 @@ fn derive_func_op_shape(def: &FuncOpDef, symbol_table: &mut BTreeMap<Rc<str>, Sh
             let target_shape = target.derive_shape(symbol_table);
             let acc_shape = acc.derive_shape(symbol_table);
             let func_shape = func.derive_shape(symbol_table);
-            // target must be a list
+            // target must be a list, tuple or string
             match &target_shape {
-                Shape::List(_) | Shape::Hole(_) => {}
+                Shape::List(_) | Shape::Tuple(_) | Shape::Str(_) | Shape::Hole(_) => {}
                 Shape::Narrowed(NarrowedShape {
                     types: NarrowingShape::Any,
                     ..
@@ -535,7 +550,7 @@ fn derive_func_op_shape(def: &FuncOpDef, symbol_table: &mut BTreeMap<Rc<str>, Sh
                     return Shape::TypeErr(
                         pos.clone(),
                         format!(
-                            "reduce target must be a list, got {}",
+                            "reduce target must be a list, tuple or string, got {}",
                             target_shape.type_name()
                         ),
                     );
